@@ -84,6 +84,43 @@ def run_workers(script, payloads, timeout=900, jobs=NCPU):
 
 
 # ----------------------------------------------------------------------------
+# regression corpus of repaired defects
+# ----------------------------------------------------------------------------
+
+def run_regress(ck):
+    """/verif/regress/<PID>/*.py: one self-contained reproducer per genuine defect that was found and repaired
+    (recorded as `fixed` in known_findings.json).  Each runs against the tree under test (PYTHONPATH = COHDL_SRC or
+    /repo) and exits 0 when the behaviour is correct.  They run first on every check run: a `fixed` entry suppresses
+    nothing, so the defect is reported again - with the script as the failing input - if it ever returns.  This is
+    a regression test, not part of the proof; it is counted separately in the evidence (coverage.regress)."""
+    d = os.path.join(VERIF, "regress", ck.pid)
+    if not os.path.isdir(d):
+        return
+    scripts = sorted(f for f in os.listdir(d) if f.endswith(".py"))
+    if not scripts:
+        return
+
+    def one(f):
+        path = os.path.join(d, f)
+        try:
+            p = subprocess.run([PY, path], capture_output=True, text=True, timeout=scaled(600), env=real_env(), cwd=ck.gen)
+            return f, p.returncode, (p.stdout + p.stderr)[-2500:]
+        except subprocess.TimeoutExpired:
+            return f, -9, "timeout"
+
+    with ThreadPoolExecutor(min(8, NCPU)) as ex:
+        res = list(ex.map(one, scripts))
+    ck.cov["regress"] = {"scripts": len(scripts), "passed": sum(1 for _, rc, _ in res if rc == 0)}
+    for f, rc, out in res:
+        ck.evaluations += 1
+        ck.obligation(rc == 0)
+        if rc != 0:
+            ck.violation({"regress": f[:-3]}, "a repaired defect is back (or a recorded one is present): regression reproducer %s fails" % f,
+                         {"script": os.path.join(d, f), "exit": rc, "output": out,
+                          "cmd": "PYTHONPATH=%s PYTHONHASHSEED=0 %s %s" % (REPO, PY, os.path.join(d, f))})
+
+
+# ----------------------------------------------------------------------------
 # Coq
 # ----------------------------------------------------------------------------
 
